@@ -297,6 +297,8 @@ pub fn gen_world(rng: &mut Rng, prop: &str) -> WorldCfg {
             vamm_owner: "owner".into(),
         }
     };
+    let n_vamms_hint = vamms.len();
+    let prefix_vamms = kind == WorldKind::Standard && n_vamms_hint >= 2 && matches!(prop, "C10" | "C03") && rng.chance(1, 4);
     WorldCfg {
         kind,
         coll: coll.clone(),
@@ -309,6 +311,7 @@ pub fn gen_world(rng: &mut Rng, prop: &str) -> WorldCfg {
         if_balance,
         roles,
         start_time: 1_000_000_000 + rng.below(3600 * 24),
+        prefix_vamms,
     }
 }
 
@@ -677,6 +680,11 @@ impl Gen {
         let v = self.pick_vamm(r, rng);
         let vo = r.obs.vamms[v].clone();
         let d = r.w.d;
+        if matches!(self.profile.prop.as_str(), "C07" | "C06") && rng.chance(1, 5) {
+            if let Some(st) = self.gen_squeeze(r, rng, v) {
+                return st;
+            }
+        }
         let pos = r.obs.position(v, "whale").cloned().filter(|p| p.size != 0);
         if pos.is_some() && rng.chance(1, 4) {
             let mut st = Step::new("whale", Op::Close { vamm: v, limit: 0 });
@@ -691,6 +699,43 @@ impl Gen {
         let mut st = Step::new("whale", op);
         st.funds = native_funds(r, "whale", &st.op);
         st
+    }
+
+    /// solved tactic: a buy so large that the base reserve falls to (just below / at / above) the size of an existing
+    /// short, undone - wholly or mostly - in the next block less than a second later; then somebody tries to liquidate
+    /// that short. The reserve record of the squeezed block stays in every TWAP window for 15 minutes.
+    fn gen_squeeze(&mut self, r: &mut Runner, rng: &mut Rng, v: usize) -> Option<Step> {
+        let vo = r.obs.vamms[v].clone();
+        let d = r.w.d;
+        let shorts: Vec<(String, U)> = r.obs.pos.iter().filter(|((vv, t), p)| *vv == v && p.size < 0 && t != "whale").map(|((_, t), p)| (t.clone(), p.size.unsigned_abs())).collect();
+        let (victim, s) = shorts.iter().max_by_key(|x| x.1).cloned()?;
+        if s < 2 || vo.b <= s || s.saturating_mul(40) < vo.b {
+            return None;
+        }
+        let target_b = match rng.below(4) {
+            0 => s,
+            1 => s + 1,
+            2 => s - 1,
+            _ => s - s / 50,
+        };
+        let n = mul_div(vo.q, vo.b - target_b, target_b)?.saturating_add(rng.range128(0, 3));
+        if n == 0 || n > r.obs.bal("whale") / 3 {
+            return None;
+        }
+        let open = Op::Open { vamm: v, side: Side::Buy, margin: n, leverage: d, limit: 0 };
+        let back = mul_div(n, *rng.pick(&[100u128, 100, 97, 90, 75]), 100)?.max(1);
+        let undo = Op::Open { vamm: v, side: Side::Sell, margin: back, leverage: d, limit: 0 };
+        let mut liq = Step::new("liquidator", Op::Liquidate { vamm: v, trader: victim, limit: 0 });
+        liq.probes.push(Probe::Liveness);
+        self.plan.push(liq);
+        let mut st2 = Step::new("whale", undo.clone());
+        st2.clock = Some((1, *rng.pick(&[0u64, 0, 1, 15])));
+        st2.funds = 0; // set when it runs for native collateral (see next())
+        st2.probes.push(Probe::Liveness);
+        self.plan.push(st2);
+        let mut st = Step::new("whale", open.clone());
+        st.funds = native_funds(r, "whale", &open);
+        Some(st)
     }
 
     fn gen_admin(&mut self, r: &mut Runner, rng: &mut Rng) -> Step {
@@ -729,7 +774,7 @@ impl Gen {
             let (mut ifd, mut i, mut l) = (None, None, None);
             if rng.chance(1, 2) {
                 match rng.below(3) {
-                    0 => ifd = Some(e.insurance_fund.clone()),
+                    0 => ifd = Some(sym_addr(r, &e.insurance_fund)),
                     1 => i = Some(e.initial),
                     _ => l = Some(e.liq_fee),
                 }
@@ -841,7 +886,7 @@ impl Gen {
                         1 => m = Some(e.maintenance),
                         2 => p = Some(e.partial),
                         3 => l = Some(e.liq_fee),
-                        _ => fp = Some(e.fee_pool.clone()),
+                        _ => fp = Some(sym_addr(r, &e.fee_pool)),
                     }
                     if rng.chance(1, 3) {
                         i = Some(e.initial);
@@ -977,7 +1022,11 @@ impl Gen {
     }
 
     pub fn next(&mut self, r: &mut Runner, rng: &mut Rng) -> Step {
-        if let Some(s) = self.plan.pop() {
+        if let Some(mut s) = self.plan.pop() {
+            if s.funds == 0 && matches!(s.op, Op::Open { .. }) {
+                let a = s.actor.clone();
+                s.funds = native_funds(r, &a, &s.op);
+            }
             return s;
         }
         let clock = self.clock(rng);
@@ -1197,6 +1246,19 @@ pub fn current_roles(r: &Runner) -> RolesNow {
         fp_owner: r.obs.fp_owner.clone(),
         pf_owner: r.obs.pf_owner.clone(),
         vamm_owner: r.obs.vamms.iter().map(|v| v.owner.clone()).collect(),
+    }
+}
+
+/// a deployment address as the symbolic name replays and the twin driver use (plain account names are kept)
+fn sym_addr(r: &Runner, a: &str) -> String {
+    if a == r.w.addrs.insurance_fund {
+        "@if".into()
+    } else if a == r.w.addrs.fee_pool {
+        "@fp".into()
+    } else if a == r.w.addrs.engine {
+        "@engine".into()
+    } else {
+        a.to_string()
     }
 }
 
